@@ -35,6 +35,14 @@ pub struct Stats {
     pub clock_reads: u64,
     #[serde(default)]
     pub dep_atomic_ops: u64,
+    #[serde(default)]
+    pub fn_entries: u64,
+    #[serde(default)]
+    pub stalls: u64,
+    #[serde(default)]
+    pub holds: u64,
+    #[serde(default)]
+    pub stall_switches: u64,
     pub interleaving_sig: u64,
 }
 
@@ -53,6 +61,10 @@ impl From<oh_verif_rt::ExecStats> for Stats {
             clock_jumps: s.clock_jumps + oh_verif_rt::time::stats().1,
             clock_reads: oh_verif_rt::time::stats().0,
             dep_atomic_ops: s.dep_atomic_ops,
+            fn_entries: s.fn_entries,
+            stalls: s.stalls,
+            holds: s.holds,
+            stall_switches: s.stall_switches,
             interleaving_sig: s.interleaving_sig,
         }
     }
@@ -80,6 +92,11 @@ fn rt_cfg(c: &ExecCfg) -> oh_verif_rt::ExecConfig {
         read_eintr_permille: c.read_eintr_permille,
         schedule_call_limit: 0,
         clock_jump_permille: c.clock_jump_permille,
+        stall_period: c.stall_period,
+        stall_seed: c.stall_seed,
+        stall_budget: c.stall_budget,
+        hold_permille: c.hold_permille,
+        stall_tasks: c.stall_tasks,
     }
 }
 
